@@ -18,7 +18,7 @@ and requires
           std::less, string content order) or a verified lexicographic sequence comparison.
 """
 from facts import AnalysisBroken, walk, strip_casts
-from symex import Sym, Unsupported, State
+from symex import Sym, Unsupported, State, show
 import contracts
 
 Q = 100     # parameter index offset of the second request
@@ -222,105 +222,82 @@ def check_scalar_compare(F, fid):
 
 
 def check_lex_compare(F, fid):
-    """Structural check of util::lexicographical_compare::operator(): loop returns the first non-zero
-    element comparison; tail by E1 over the exhaustion cases (T,T)->0 (T,F)->- (F,T)->+."""
+    """util::lexicographical_compare::operator() evaluated on ranges of 0, 1 and 2 elements each (nine cases, every
+    path): with the first j element comparisons zero it must return the (j+1)-th when that is non-zero, and, when the
+    shorter range is exhausted with all comparisons zero, 0 / negative / positive as the lengths are equal / the first is
+    shorter / the second is shorter.  The function touches its iterators only through !=, ++ and *, the same way in every
+    iteration, so the cases of length <= 2 cover the loop."""
     f = F.fn.get(fid)
     if f is None:
         return False, 'body missing'
-    body = f['body']['b'] if f['body'].get('k') == 'compound' else [f['body']]
-    if len(body) != 2 or body[0].get('k') != 'for' or body[1].get('k') != 'return':
-        return False, 'unexpected statement structure'
-    loop = body[0]
-    # loop condition: first1 != last1 and first2 != last2 ; increment both
-    c = loop.get('c') or {}
+    ptypes = [p['t'] for p in f['params']]
+    if len(ptypes) != 5 or ptypes[0] != ptypes[1] or ptypes[2] != ptypes[3]:
+        return False, f'unexpected signature {ptypes}'
+    layouts = []
+    for t in (ptypes[0], ptypes[2]):
+        r = F.rec.get(t)
+        if r is None:
+            raise AnalysisBroken(f'{fid}: iterator type {t} is not a class of the repository (pointer iterators are not modelled)')
+        ints = [fl['name'] for fl in r['fields'] if fl['t'] in ('unsigned long', 'long', 'int', 'unsigned int', 'std::size_t')]
+        ptrs = [fl['name'] for fl in r['fields'] if fl['t'].rstrip().endswith('*')]
+        if len(ints) != 1 or len(ptrs) != 1 or len(r['fields']) != 2:
+            raise AnalysisBroken(f'{fid}: iterator class {t} is not (sequence pointer, index)')
+        layouts.append((t, ptrs[0], ints[0]))
+    cmp_cls = ptypes[4].replace('const ', '').replace('&', '').strip()
+    S = Sym(F, opaque=lambda x: F.fn.get(x) is None or (F.fn[x].get('parent') or '') == cmp_cls, max_depth=24)
+    A, B, C = ('param', 50), ('param', 51), ('param', 4)
+    table = {}
 
-    def is_ne(e, i, j):
-        return (e.get('k') == 'call' and e.get('op') in ('!=',) or e.get('k') == 'binop' and e.get('op') == '!=')
+    def ints_in(t, acc):
+        if isinstance(t, tuple):
+            if t and t[0] == 'k' and isinstance(t[1], int) and not isinstance(t[1], bool):
+                acc.append(t[1])
+            else:
+                for x in t:
+                    ints_in(x, acc)
+        return acc
+    for n1 in range(3):
+        for n2 in range(3):
+            st = State()
+            its = []
+            for (t, pf, xf), seq, idx in ((layouts[0], A, 0), (layouts[0], A, n1), (layouts[1], B, 0), (layouts[1], B, n2)):
+                o = st.new_obj(t, origin=('ctor', 'iterator'))
+                st.heap[o[1]].fields[pf] = ('addr', seq)
+                st.heap[o[1]].fields[xf] = ('k', idx, 'int')
+                its.append(o)
+            try:
+                outs = S.run(fid, args=its + [C], state=st)
+            except Unsupported as e:
+                raise AnalysisBroken(f'{fid}: outside the evaluator language: {e}')
+            m = min(n1, n2)
+            for s2, kind, v in outs:
+                if kind != 'return':
+                    return False, f'lengths ({n1},{n2}): may throw {v}'
+                cmps = [(c, val) for c, val in s2.conds if isinstance(c, tuple) and c[0] in ('call', 'vcall') and c[2] == C]
+                for j, (c, val) in enumerate(cmps):
+                    x, y = c[3][0], c[3][1]
+                    if params_in(x) != {50} or params_in(y) != {51} or ints_in(x, []) != [j] or ints_in(y, []) != [j]:
+                        return False, f'lengths ({n1},{n2}): comparison {j} is applied to {show(x)} and {show(y)}, not to element {j} of each range'
+                    if val and j != len(cmps) - 1:
+                        return False, f'lengths ({n1},{n2}): continues after a non-zero element comparison'
+                if cmps and cmps[-1][1]:
+                    if len(cmps) > m:
+                        return False, f'lengths ({n1},{n2}): compares element {len(cmps) - 1} beyond the shorter range'
+                    if v != cmps[-1][0]:
+                        return False, f'lengths ({n1},{n2}): returns {show(v)} instead of the first non-zero element comparison'
+                    continue
+                if len(cmps) != m:
+                    return False, f'lengths ({n1},{n2}): decides after {len(cmps)} element comparison(s) although {m} element pair(s) exist'
+                if not (isinstance(v, tuple) and v[0] == 'k' and isinstance(v[1], int)):
+                    return False, f'lengths ({n1},{n2}): all comparisons zero, returns {show(v)}'
+                want = (n1 > n2) - (n1 < n2)
+                got = (v[1] > 0) - (v[1] < 0)
+                table[f'{n1},{n2}'] = v[1]
+                if got != want:
+                    return False, (f'lengths ({n1},{n2}) with all element comparisons zero: returns {v[1]}, expected '
+                                   f'{"0" if want == 0 else ("a negative value" if want < 0 else "a positive value")}')
+    return True, table
 
-    conj = []
-    if c.get('k') == 'binop' and c.get('op') == '&&':
-        conj = [c['l'], c['r']]
-    if len(conj) != 2:
-        return False, 'loop condition is not a conjunction of two inequalities'
-
-    def parm_pair(e):
-        ps = sorted(n.get('idx') for n in walk(e) if n.get('k') == 'ref' and n.get('kind') == 'parm')
-        return ps
-    if parm_pair(conj[0]) != [0, 1] or parm_pair(conj[1]) != [2, 3]:
-        return False, 'loop condition does not test (first1,last1) and (first2,last2)'
-    inc = loop.get('inc') or {}
-    incs = sorted(n.get('idx') for n in walk(inc) if n.get('k') == 'ref' and n.get('kind') == 'parm')
-    if incs != [0, 2]:
-        return False, 'loop does not advance first1 and first2 exactly once per iteration'
-    # body: if (auto cmp = compare(*first1, *first2)) return cmp;
-    b = loop.get('b') or {}
-    if b.get('k') == 'compound' and len(b['b']) == 1:
-        b = b['b'][0]
-    if b.get('k') != 'if' or 'var' not in b or b.get('else') is not None:
-        return False, 'loop body is not `if (auto cmp = compare(*first1,*first2)) return cmp;`'
-    init = b['var'].get('init') or {}
-    if init.get('k') != 'call':
-        return False, 'loop body does not call the element comparator'
-    o = strip_casts(init.get('obj') or {})
-    if not (o.get('k') == 'ref' and o.get('kind') == 'parm' and o.get('idx') == 4):
-        return False, 'element comparison is not through the comparator argument'
-    argp = [sorted(n.get('idx') for n in walk(a) if n.get('k') == 'ref' and n.get('kind') == 'parm') for a in init.get('args', [])]
-    if argp != [[0], [2]]:
-        return False, 'element comparator is not applied to (*first1, *first2)'
-    then = b['then']
-    if then.get('k') == 'compound' and len(then['b']) == 1:
-        then = then['b'][0]
-    rv = strip_casts(then.get('e') or {})
-    if then.get('k') != 'return' or not (rv.get('k') == 'ref' and rv.get('kind') == 'local' and rv.get('id') == b['var']['id']):
-        return False, 'loop does not return the non-zero element comparison'
-    # tail: E1 on {end1, end2}
-    tail = body[1]['e']
-    res = {}
-    for e1 in (True, False):
-        for e2 in (True, False):
-            v = eval_tail(tail, e1, e2)
-            if v is None:
-                return False, 'tail expression outside the E1 language'
-            res[(e1, e2)] = v
-    good = res[(True, True)] == 0 and res[(True, False)] < 0 and res[(False, True)] > 0
-    return good, {str(k): v for k, v in res.items()}
-
-
-def eval_tail(e, end1, end2):
-    e = strip_casts(e)
-    k = e.get('k')
-    if k == 'lit':
-        return int(e['cv'])
-    if k == 'unop' and e['op'] == '-':
-        v = eval_tail(e['e'], end1, end2)
-        return None if v is None else -v
-    if k == 'cond':
-        c = eval_tail_cond(e['c'], end1, end2)
-        if c is None:
-            return None
-        return eval_tail(e['then'] if c else e['else'], end1, end2)
-    return None
-
-
-def eval_tail_cond(e, end1, end2):
-    e = strip_casts(e)
-    k = e.get('k')
-    if k in ('call', 'binop') and e.get('op') in ('==', '!='):
-        ps = sorted(n.get('idx') for n in walk(e) if n.get('k') == 'ref' and n.get('kind') == 'parm')
-        if ps == [0, 1]:
-            v = end1
-        elif ps == [2, 3]:
-            v = end2
-        else:
-            return None
-        return v if e.get('op') == '==' else (not v)
-    if k == 'unop' and e['op'] == '!':
-        v = eval_tail_cond(e['e'], end1, end2)
-        return None if v is None else (not v)
-    return None
-
-
-# ---------------------------------------------------------------------------
 
 class KeyChecker:
     def __init__(self, ck, F, prefix):
@@ -478,8 +455,9 @@ class KeyChecker:
     # -- path conditions --------------------------------------------------------------------------
     @staticmethod
     def fixed_terms(conds):
-        """Terms equated, on this path, with a value that does not depend on any request parameter."""
-        fixed = set()
+        """Terms equated, on this path, with a value that does not depend on any request parameter:
+        {term: value}.  The test may be written either way round (== true, != false, negated)."""
+        fixed = {}
 
         def visit(c, val):
             if not isinstance(c, tuple) or not c:
@@ -493,9 +471,9 @@ class KeyChecker:
             if c[0] == 'op' and ((c[1] == '==' and val) or (c[1] == '!=' and not val)):
                 a, b = c[2], c[3]
                 if not params_in(b):
-                    fixed.add(a)
+                    fixed[a] = b
                 if not params_in(a):
-                    fixed.add(b)
+                    fixed[b] = a
         for c, val in conds:
             visit(c, val)
         return fixed
@@ -522,8 +500,8 @@ class KeyChecker:
                     x = x[3][0]
                 else:
                     break
-            if x == pq and through and through[0] in ('size', 'length') and \
-                    any(c == (('op', '==', t, ('k', 0, 'int')), True) for c in conds):
+            v = fixed[t]
+            if x == pq and through and through[0] in ('size', 'length') and isinstance(v, tuple) and v[0] == 'k' and v[1] == 0:
                 return True
         t = f['params'][i]['t'].replace('const ', '').replace('&', '').strip()
         opeq = f'{t}::operator==(const {t} &) const'
@@ -612,14 +590,17 @@ class KeyChecker:
         try:
             b, e = pair
             fb, fe = dict(b[2]), dict(e[2])
-            if b[0] != 'val' or e[0] != 'val':
+            if b[0] != 'val' or e[0] != 'val' or len(fb) != 2 or set(fb) != set(fe):
                 return None
-            if fb['seq'] != fe['seq'] or fb['index'] != ('k', 0, 'int'):
+            # an iterator is (sequence pointer, index): told apart by their values, not by the members' names
+            ks = sorted(fb, key=lambda k: 0 if (isinstance(fb[k], tuple) and fb[k][0] == 'k') else 1)
+            fi, fs = ks[0], ks[1]
+            if fb[fs] != fe[fs] or fb[fi] != ('k', 0, 'int'):
                 return None
-            idx = fe['index']
+            idx = fe[fi]
             if not (isinstance(idx, tuple) and idx[0] in ('call', 'vcall') and 'size()' in idx[1]):
                 return None
-            seq = fb['seq']
+            seq = fb[fs]
             recv = idx[2]
             # the size must be taken from the same sequence (possibly seen through its private base)
             if ('addr', recv) != seq and params_in(recv) != params_in(seq):
